@@ -108,6 +108,9 @@ its own mutex (the pre-fix `missingNodeKeys`), a goroutine touches mutable recei
 something it cannot classify. -/
 theorem mpt_table_ok : TableOK mptScope := by decide +kernel
 
+-- printed by every build: empty when the obligation holds, otherwise what breaks it (for the replay message)
+#eval offenders mptScope
+
 /-- the operations the property names are in the claimed scope, and nothing new is silently left out:
 the exported methods outside the scope are exactly the three documented ones -/
 theorem mpt_scope_pinned :
@@ -207,6 +210,36 @@ theorem old_table_admits_race :
     case race =>
       exact ⟨0, 1, ⟨6, true, 0, some .R⟩, ⟨6, true, 0, some .R⟩, by decide,
         .inr ⟨1, .rel (.ret ()), rfl, rfl, rfl, rfl⟩, .inr ⟨1, .rel (.ret ()), rfl, rfl, rfl, rfl⟩, rfl, .inl rfl⟩
+
+
+/-! ## open known finding C16-getchanges-escape
+
+`GetChanges` returns the change collector's own `*NodeChange` records. A caller that reads such a record after
+`GetChanges` has returned holds neither the trie's lock nor the collector's; `ChangeCollector.AddChange` (called by
+every insert, under the trie's WRITE lock and the collector's own lock) updates such records in place. In the
+model: the caller's read is an access to the collector state (location `1000 + 4`) with no lock at all. The full
+statement — the discipline also covers what callers do with returned change sets — is false; what is proved above
+(`mpt_table_ok`, `no_conflict`, `lin_of_table`) is the partial statement for scripts that perform only the accesses
+of the methods themselves (the suite's matcher accepts exactly the race between `AddChange` and the harness
+reading a returned record). -/
+
+/-- a caller reading a `*NodeChange` record it got from `GetChanges`, after the call returned -/
+def callerReadsChangeRecord : FAcc := { loc := 1004, write := false, sub := 0, held := none }
+
+/-- full statement: the lockset discipline holds even when callers read the returned records -/
+def C16_full : Prop := LocksetOK (callerReadsChangeRecord :: footprint mptScope)
+
+theorem C16_full_false : ¬ C16_full := by
+  intro h
+  have hmem : ({ loc := 1004, write := true, sub := 2004, held := some .W } : FAcc) ∈ callerReadsChangeRecord :: footprint mptScope :=
+    List.mem_cons_of_mem _ (by decide +kernel)
+  have := h callerReadsChangeRecord (List.mem_cons_self ..) _ hmem rfl (.inr rfl)
+  simp [Protected, callerReadsChangeRecord] at this
+
+/-- the partial statement that IS proved: without the caller-side read the footprint satisfies the lockset
+discipline (hence `no_conflict`) -/
+theorem C16_lockset_partial : LocksetOK (footprint mptScope) :=
+  lockset_of_fpOK (fpOK_of_tableOK mpt_table_ok)
 
 /-! ## non-vacuity: the hypotheses of `no_conflict` / `lin_of_table` are satisfiable over the regenerated table
 by a non-trivial instance: a writer that replaces the root (location 2) under the write lock, and a reader that
